@@ -38,12 +38,21 @@ Example C05_utf16_columns_refuted :
   let content := [114;101;113;117;105;114;101;32;40;10;9;195;169;47;120;32;118;49;46;48;46;48;10;41;10] in   (* require (\n\t(e-acute)/x v1.0.0\n)\n *)
   exists p, parse_go_mod content = [p] /\ structural_ok content p /\ p_col p = 6 /\ utf16_len (firstn 6 (skipn 10 content)) = 5.
 Proof. eexists. vm_compute. repeat split; discriminate. Qed.
-(* CRLF line endings: the offsets drift by one byte per line *)
-Example C05_gomod_crlf_refuted :
-  let content := [114;101;113;117;105;114;101;32;40;13;10;9;97;47;98;32;118;49;46;48;46;48;13;10;41;13;10] in   (* require (\r\n\ta/b v1.0.0\r\n)\r\n *)
-  exists p, parse_go_mod content = [p] /\ pos_of content (p_start p) <> (p_line p, p_col p).
-Proof. eexists. vm_compute. split; [reflexivity|discriminate]. Qed.
+(* go.mod, every file of the reference grammar (Spec/GoModFile.v): each reported location is exactly the version text -
+   the bytes [start, end) of the document are the version, (line, column) is the position of start, the extent is the
+   length of the version, inside the document *)
+From VL Require Import Spec.GoModFile Proofs.GoModProofs.
+Theorem C05_go_mod_locations :
+  forall f, file_ok false f = true ->
+  forall p, In p (parse_go_mod (render f)) ->
+  slice (render f) (p_start p) (p_end p) = Some (p_version p)
+  /\ pos_of (render f) (p_start p) = (p_line p, p_col p) /\ p_end p = p_start p + blen (p_version p) /\ p_end p <= blen (render f).
+Proof. exact go_mod_locations. Qed.
+(* and the complete result, locations included, is the one the grammar assigns *)
+Theorem C05_go_mod_located : forall f, file_ok false f = true -> parse_go_mod (render f) = located f 0 0.
+Proof. exact go_mod_located. Qed.
 
 Print Assumptions C05_package_json_structural.
 Print Assumptions C05_json_covers_value.
 Print Assumptions C05_diag_range.
+Print Assumptions C05_go_mod_locations.
